@@ -41,13 +41,14 @@ CHECKS = {
          "owners, for every finite collection in every order), C04_which (URI clashes are reported first), C04_listing "
          "(the error lists exactly the clashing pairs), C04_record (validators), C04_owner and C04_bimap (one owner per "
          "prefix; bimap / reverse_bimap mutually inverse), C04_loader_* (loaders hand validated records to the same "
-         "constructor). Correspondence plants every clash orientation and runs constructor, listing and loaders. Every ordered pair of small records (with synonyms and self-synonyms) is enumerated completely on every run.",
+         "constructor), C04_advertised_* (Properties/Advertised.lean: get_prefixes / get_uri_prefixes, with and without synonyms, and the key sets of prefix_map / reverse_prefix_map / the trie are exactly what standardize_prefix resolves and parse_uri consumes entirely, with the unique owner's canonical names as answers; every name of a case and its neighbours is fed back to the constructed converter and the law is evaluated on the implementation's answers). Correspondence plants every clash orientation and runs constructor, listing and loaders. Every ordered pair of small records (with synonyms and self-synonyms) is enumerated completely on every run.",
     design="§7 C04", technique="Lean 4 theorem (iff between the pairwise duplicate listing and one-owner uniqueness) + model/implementation correspondence"),
  "C05": dict(
     text="Proof: T2 (C05_step: add_record keeps the invariant WF = one owner per prefix + validated records + all indexes "
          "mirror the records, for every flag combination and every case-folding function), lifted by induction to every "
          "finite history (C05_histories), with C05_reject / C05_reject_iff (ValueError, exactly when one match without merge or several "
          "matches; the same rule is evaluated by the Lean checker on every add of the implementation), C05_shape / C05_resolves (append unchanged or merge keeping canonical prefix, URI prefix and pattern), "
+         "C05_advertised_histories (after any history the advertised prefix / URI-prefix sets are exactly what standardize_prefix / parse_uri resolve; read and evaluated on the implementation after every call), "
          "C05_afterAdd / C05_afterAdd_reject / C05_records_refine (the records after any history are what folding the index-free list function Spec.afterAdd over the history gives; the Lean checker demands exactly these records of the implementation after every add), and C05_fresh / C05_histories_fresh (answers equal those of a converter freshly built from the current records, "
          "via T0 and permutation invariance of the specification), C05_lookup_structures (after any history prefix_map, synonym_to_prefix, reverse_prefix_map, the trie and pattern_map are, as functions, the ones computed from the current records; the Lean checker evaluates the same statement on the dictionaries the implementation exposes). Correspondence replays histories with planted overlaps "
          "and observes records, all five lookup structures and a probe set after every operation. Every one-step history over names differing only by case (3 072 quick / 28 812 thorough) is enumerated completely on every run.",
